@@ -704,10 +704,23 @@ func executeDirectives(inst *Instance, filename string,
 func startServers(serverList []Server, inst *Instance, restartFds map[string]restartTriple) (err error) {
 	errChan := make(chan error, len(serverList))
 
+	// the listener and packet connection of the server being set up,
+	// until they are recorded in inst.servers
+	var (
+		ln net.Listener
+		pc net.PacketConn
+	)
+
 	// if a server fails to listen, the instance is discarded: release
 	// the listeners already opened (or inherited) for it
 	defer func() {
 		if err != nil {
+			if ln != nil {
+				ln.Close()
+			}
+			if pc != nil {
+				pc.Close()
+			}
 			for _, s := range inst.servers {
 				if s.listener != nil {
 					s.listener.Close()
@@ -726,11 +739,8 @@ func startServers(serverList []Server, inst *Instance, restartFds map[string]res
 	stopWg := &sync.WaitGroup{}
 
 	for _, s := range serverList {
-		var (
-			ln  net.Listener
-			pc  net.PacketConn
-			err error
-		)
+		var err error
+		ln, pc = nil, nil
 
 		// if performing an upgrade, obtain listener file descriptors
 		// from parent process
@@ -803,19 +813,22 @@ func startServers(serverList []Server, inst *Instance, restartFds map[string]res
 		}
 
 		if ln == nil {
-			ln, err = s.Listen()
+			newLn, err := s.Listen()
 			if err != nil {
 				return fmt.Errorf("Listen: %v", err)
 			}
+			ln = newLn
 		}
 		if pc == nil {
-			pc, err = s.ListenPacket()
+			newPc, err := s.ListenPacket()
 			if err != nil {
 				return fmt.Errorf("ListenPacket: %v", err)
 			}
+			pc = newPc
 		}
 
 		inst.servers = append(inst.servers, ServerListener{server: s, listener: ln, packet: pc})
+		ln, pc = nil, nil
 	}
 
 	for _, s := range inst.servers {
